@@ -404,7 +404,6 @@ func VerifC08Storage() {
 			empty, _ := NewDefaultStorage()
 			wasEmpty := s.Equal(empty)
 			s.Add(&Record{Addr: addr})
-			verifrt.Known("C08-add-without-names", true)
 			verifrt.Assert(c08CountNames(s) == n0 && c08CountAddrs(s) == a0, "a record without names changed the indexes")
 			verifrt.Assert(c08EqStrs(s.ByAddr(addr), before), "a record without names changed ByAddr")
 			verifrt.Assert(s.Equal(empty) == wasEmpty, "a record without names changed Equal")
